@@ -37,9 +37,17 @@ def cases(tier, rng):
                 out.append((progs.hist(list(progs.LIB) + rules, [progs.build(0, [atom("a"), var(0, "$Q")])] + [progs.ask(0)] * 6), "or-exhausted"))
     n = 500 if tier == "quick" else 10000
     out += histgen.random_cases(rng, n, dict(), nasks_choices=(8, 12, 16), solve_mix=False)
+    # large programs (40-clause predicates, chains 30 links deep, up to 60 answers), each asked well beyond its last answer;
+    # and a small query asked 60 times after exhaustion
+    from gen import C01
+    for c, t in C01.large_cases(tier, rng):
+        if t == "large": out.append((c.replace("(ask 0))", "(ask 0) (ask 0) (ask 0) (ask 0) (ask 0) (ask 0) (ask 0) (ask 0))"), "large"))
+    out.append((progs.hist(list(progs.LIB), [progs.build(0, [atom("n"), var(0, "$Q")])] + [progs.ask(0)] * 64), "asked-64-times"))
+    out.append((progs.hist(list(progs.LIB), [progs.build(0, [atom("path"), var(0, "$A"), var(0, "$B")])] + [progs.ask(0)] * 40 + ["(solve 0)"] * 10), "asked-64-times"))
     return out
 
-RULE = ("(a) bodies of 1-3 goals over a 10-goal alphabet (multi-answer calls, =, >, fail, !, print, not(..)) in a($X) :- BODY. a(9). "
+RULE = ("(0) large programs (predicates of 12-40 clauses, chains 30 links deep, up to 60 answers) asked 8 times beyond their last answer, small queries asked 50-64 times; "
+        "(a) bodies of 1-3 goals over a 10-goal alphabet (multi-answer calls, =, >, fail, !, print, not(..)) in a($X) :- BODY. a(9). "
         "asked 9 times (all of them in the thorough tier, 35% in the quick tier); the same under a disjunction with not and "
         "cut through solve (8 times) and next_solution; time(G) (first answer only) for 4 goals G followed by 4 filters in 6 "
         "positions, as first and as last clause, asked 8 times; printing disjunctions as non-last goals whose every combination fails; (b) random programs with cut, not, print, disjunctions and built-ins, "
